@@ -97,6 +97,8 @@ class RefConf(object):
       self.reset()
     elif kind == 'setattr':
       raise RefErr('noattrset')
+    elif kind == 'peek':
+      pass          # the wrapped function reads every view: no effect on the state
     elif kind == 'sar':
       # save_and_restore(**op[1]) around body ops op[2]; op[3] = body raises
       saved = dict(self.loaded)
